@@ -204,7 +204,12 @@ func (incr *incremental[Obj]) batch(ctx context.Context, txn statedb.ReadTxn, ch
 
 func (incr *incremental[Obj]) processRetries(ctx context.Context, txn statedb.ReadTxn) statedb.Revision {
 	now := time.Now()
-	for incr.numReconciled < incr.config.IncrementalRoundSize {
+	// The retries share the round with the new and changed objects. A round that
+	// was filled up by the changes still processes one retry that is due: otherwise
+	// a table that keeps every round full (e.g. objects being marked for refresh
+	// faster than they are reconciled) would starve the failed objects for good.
+	budget := max(incr.config.IncrementalRoundSize-incr.numReconciled, 1)
+	for ; budget > 0; budget-- {
 		item, ok := incr.retries.Top()
 		if !ok || item.retryAt.After(now) {
 			break
